@@ -279,6 +279,14 @@ func (f *fileCtx) selector(x *ast.SelectorExpr) {
 		if f.mode == "explore" {
 			to = "vrt.Sleep"
 		}
+	case "runtime.SetFinalizer":
+		if f.mode == "explore" {
+			to = "vrt.SetFinalizer" // run by the explorer once the harness declares the object unreachable
+		}
+	case "runtime.GC":
+		if f.mode == "explore" {
+			to = "vrt.GC"
+		}
 	case "time.After", "time.NewTimer", "time.AfterFunc", "time.Tick", "time.NewTicker":
 		if f.mode == "explore" {
 			f.unsupported(x, "real-time timer "+x.Sel.Name)
@@ -404,6 +412,8 @@ func (f *fileCtx) finish() {
 			fmt.Fprintf(&tail, "var _ %s.Context\n", name)
 		case "time":
 			fmt.Fprintf(&tail, "var _ %s.Duration\n", name)
+		case "runtime":
+			fmt.Fprintf(&tail, "var _ = %s.GOOS\n", name)
 		}
 	}
 	f.edits = append(f.edits, edit{off: len(f.src), text: tail.String(), seq: len(f.edits)})
